@@ -64,6 +64,12 @@ func (m *Mutex) Unlock() {
 		fatal("sync: unlock of unlocked mutex")
 	}
 	m.locked = false
+	// A scheduling point right after the release: what a goroutine does between giving up
+	// the lock and its next synchronisation (a store that should have been under the lock)
+	// is visible to the goroutine that takes the lock next.
+	if simrt.Active() {
+		simrt.Yield()
+	}
 }
 
 // Locked is a probe for oracles.
@@ -96,6 +102,9 @@ func (m *RWMutex) Unlock() {
 		fatal("sync: Unlock of unlocked RWMutex")
 	}
 	m.w = false
+	if simrt.Active() {
+		simrt.Yield()
+	}
 }
 
 func (m *RWMutex) RLock() {
